@@ -17,9 +17,12 @@
 (* task can leave behind - C12), and the request may later be extended to  *)
 (* a larger number of trials.                                              *)
 (*                                                                         *)
-(* A result file holds the same count for every simulation of its input    *)
-(* (every process starts from equal counts and BatchSimulation advances all*)
-(* simulations in lock step), so files[t] is one number; Absent = no file. *)
+(* An input file may be EXTENDED between runs (a further error rate is      *)
+(* appended: C12's "specifications that grow").  The simulations an input  *)
+(* had from the start advance in lock step, so a result file is described  *)
+(* by two numbers: files[t].a trials of each original simulation (Absent = *)
+(* no file), files[t].b trials of the added simulation (Absent = the file  *)
+(* has no record of it).                                                   *)
 (***************************************************************************)
 EXTENDS Naturals, Integers, FiniteSets, Sequences, TLC, Json
 
@@ -29,10 +32,12 @@ CONSTANTS MaxI, MaxN, MaxC, MaxT, MaxSteps,
 Variant == "remainder"
 VARIABLES cfg,      \* [I, N, C]: inputs, nodes, cores per node (fixed per behaviour)
           T,        \* trials currently requested per input
-          files,    \* task -> trials stored in its result file, Absent if none
+          files,    \* task -> [a, b]: trials stored in its result file (see above)
+          grown,    \* inputs to which a simulation has been added
+          top,      \* task -> the largest share of trials it has ever been asked for
           extended, \* the request has been raised after some task had run
           steps, hist
-vars == <<cfg, T, files, extended, steps, hist>>
+vars == <<cfg, T, files, grown, top, extended, steps, hist>>
 
 Absent == -1
 Cur == [I |-> cfg.I, N |-> cfg.N, C |-> cfg.C, T |-> T]
@@ -51,36 +56,47 @@ Pre(c) == c.I >= 1 /\ NTasks(c) >= c.I /\ c.T >= MaxTPI(c)
 
 Tasks == 0..(NTasks(Cur) - 1)
 TasksOf(j) == { t \in Tasks : t \div cfg.C = j - 1 }
-Stored(t) == IF files[t] = Absent THEN 0 ELSE files[t]
+NoFile == [a |-> Absent, b |-> Absent]
+Val(x) == IF x = Absent THEN 0 ELSE x
+Stored(t) == Val(files[t].a)
+StoredB(t) == Val(files[t].b)
 Max(a, b) == IF a > b THEN a ELSE b
+Grown(t) == InputOf(Cur, t) \in grown
 
-Total(i) == LET S == { t \in Tasks : InputOf(Cur, t) = i }
-                RECURSIVE Sum(_)
-                Sum(R) == IF R = {} THEN 0
-                          ELSE LET x == CHOOSE y \in R : TRUE IN Stored(x) + Sum(R \ {x})
-            IN Sum(S)
-Totals == [i \in 0..(cfg.I - 1) |-> Total(i)]
+SumOver(S, g(_)) == LET RECURSIVE Sum(_)
+                        Sum(R) == IF R = {} THEN 0
+                                  ELSE LET x == CHOOSE y \in R : TRUE IN g(x) + Sum(R \ {x})
+                    IN Sum(S)
+TasksOfInput(i) == { t \in Tasks : InputOf(Cur, t) = i }
+Total(i) == SumOver(TasksOfInput(i), Stored)
+TotalB(i) == SumOver(TasksOfInput(i), StoredB)
 
 Init ==
   /\ cfg \in [I : 1..MaxI, N : MinN..MaxN, C : MinC..MaxC]
   /\ T \in 1..MaxT
   /\ Pre([I |-> cfg.I, N |-> cfg.N, C |-> cfg.C, T |-> T])
-  /\ files = [t \in 0..(cfg.N * cfg.C - 1) |-> Absent]
+  /\ files = [t \in 0..(cfg.N * cfg.C - 1) |-> NoFile]
+  /\ grown = {}
+  /\ top = [t \in 0..(cfg.N * cfg.C - 1) |->
+              Runs([I |-> cfg.I, N |-> cfg.N, C |-> cfg.C, T |-> T], t)]
   /\ extended = FALSE
   /\ steps = 0
   /\ hist = <<[a |-> "init", trials |-> T]>>
 
-Obs(f) == [files |-> [t \in Tasks |-> f[t]],
+Obs(f) == [files |-> [t \in Tasks |-> f[t].a], filesb |-> [t \in Tasks |-> f[t].b],
            totals |-> [i \in 0..(cfg.I - 1) |->
-                         LET S == { t \in Tasks : InputOf(Cur, t) = i }
-                             RECURSIVE Sum(_)
-                             Sum(R) == IF R = {} THEN 0
-                                       ELSE LET x == CHOOSE y \in R : TRUE IN
-                                            (IF f[x] = Absent THEN 0 ELSE f[x]) + Sum(R \ {x})
-                         IN Sum(S)]]
+                         LET g(x) == Val(f[x].a) IN SumOver(TasksOfInput(i), g)],
+           totalsb |-> [i \in 0..(cfg.I - 1) |->
+                         LET g(x) == Val(f[x].b) IN SumOver(TasksOfInput(i), g)]]
 
-\* what one task leaves in its file when it runs to the end
-After(t, del) == IF del THEN Runs(Cur, t) ELSE Max(Stored(t), Runs(Cur, t))
+\* what one task leaves in its file when it runs up to `r` trials: every
+\* simulation of its input that has fewer is brought up to r, none is reduced
+\* (with --delete-existing the file is started afresh)
+UpTo(t, r, del) ==
+  [a |-> IF del THEN r ELSE Max(Stored(t), r),
+   b |-> IF ~Grown(t) THEN (IF del THEN Absent ELSE files[t].b)
+         ELSE IF del THEN r ELSE Max(StoredB(t), r)]
+After(t, del) == UpTo(t, Runs(Cur, t), del)
 
 \* How a job is launched: by calling `panqec run-parallel` directly, or by
 \* the script that `panqec generate-cluster-script` writes for a scheduler
@@ -97,45 +113,63 @@ RunJob(j, del, via) ==
      /\ hist' = Append(hist, [a |-> "job", job |-> j, delete |-> del, trials |-> T,
                               via |-> via, expect |-> Obs(f)])
   /\ steps' = steps + 1
-  /\ UNCHANGED <<cfg, T, extended>>
+  /\ UNCHANGED <<cfg, T, extended, grown, top>>
 
 \* job j runs, but its task t0 stops early with m trials in its file
 PartialJob(j, t0, m) ==
   /\ steps < MaxSteps
   /\ t0 \in TasksOf(j)
   /\ m < Runs(Cur, t0) /\ m >= Stored(t0)
-  /\ LET f == [t \in Tasks |-> IF t = t0 THEN m
+  /\ LET f == [t \in Tasks |-> IF t = t0 THEN UpTo(t, m, FALSE)
                                ELSE IF t \in TasksOf(j) THEN After(t, FALSE) ELSE files[t]] IN
      /\ files' = f
      /\ hist' = Append(hist, [a |-> "partial", job |-> j, task |-> t0, stop |-> m,
                               trials |-> T, expect |-> Obs(f)])
   /\ steps' = steps + 1
-  /\ UNCHANGED <<cfg, T, extended>>
+  /\ UNCHANGED <<cfg, T, extended, grown, top>>
+
+\* a simulation (a further error rate) is appended to input file i
+Grow(i) ==
+  /\ steps < MaxSteps
+  /\ i \in 0..(cfg.I - 1) /\ i \notin grown
+  /\ grown' = grown \cup {i}
+  /\ hist' = Append(hist, [a |-> "grow", input |-> i, trials |-> T])
+  /\ steps' = steps + 1
+  /\ UNCHANGED <<cfg, T, files, extended, top>>
 
 \* the user asks for more trials and runs the directory again
 Extend(T2) ==
   /\ steps < MaxSteps
   /\ T2 > T
   /\ T' = T2
-  /\ extended' = (extended \/ \E t \in Tasks : files[t] # Absent)
+  /\ extended' = (extended \/ \E t \in Tasks : files[t].a # Absent)
+  /\ top' = [t \in Tasks |-> Max(top[t], Runs([I |-> cfg.I, N |-> cfg.N, C |-> cfg.C, T |-> T2], t))]
   /\ hist' = Append(hist, [a |-> "extend", trials |-> T2])
   /\ steps' = steps + 1
-  /\ UNCHANGED <<cfg, files>>
+  /\ UNCHANGED <<cfg, files, grown>>
 
 Next == \/ \E j \in 1..cfg.N, del \in BOOLEAN, via \in Launchers : RunJob(j, del, via)
         \/ \E j \in 1..cfg.N : \E t0 \in TasksOf(j), m \in 0..MaxT : PartialJob(j, t0, m)
         \/ \E T2 \in 1..MaxT : Extend(T2)
+        \/ \E i \in 0..(cfg.I - 1) : Grow(i)
 Spec == Init /\ [][Next]_vars
 
 \* ------------------------------------------------------------ properties
-TypeOK == /\ files \in [Tasks -> -1..MaxT] /\ T \in 1..MaxT /\ extended \in BOOLEAN
-AllComplete == \A t \in Tasks : Stored(t) >= Runs(Cur, t)
+TypeOK == /\ files \in [Tasks -> [a : -1..MaxT, b : -1..MaxT]] /\ T \in 1..MaxT
+          /\ extended \in BOOLEAN /\ grown \subseteq 0..(cfg.I - 1)
+AllComplete == \A t \in Tasks : /\ Stored(t) >= Runs(Cur, t)
+                                /\ Grown(t) => StoredB(t) >= Runs(Cur, t)
 \* C14 end to end: once every task has completed, the analysis sees exactly T
-Conservation == (AllComplete /\ ~extended) => \A i \in 0..(cfg.I - 1) : Total(i) = T
+\* for every simulation of every input
+Conservation == (AllComplete /\ ~extended) =>
+                   \A i \in 0..(cfg.I - 1) : Total(i) = T /\ (i \in grown => TotalB(i) = T)
 \* never more than requested, at any moment (no trial is run twice)
-NeverTooMany == ~extended => \A i \in 0..(cfg.I - 1) : Total(i) <= T
+NeverTooMany == ~extended => \A i \in 0..(cfg.I - 1) : Total(i) <= T /\ TotalB(i) <= T
+\* whatever the history of requests and extensions: no simulation of a task
+\* ever holds more trials than the largest share the task was asked for
+NoTaskBeyondItsLargestShare == \A t \in Tasks : Stored(t) <= top[t] /\ StoredB(t) <= top[t]
 \* a task never loses trials unless the user deletes
-Monotone == [][\A t \in Tasks : files'[t] < files[t] =>
+Monotone == [][\A t \in Tasks : (files'[t].a < files[t].a \/ files'[t].b < files[t].b) =>
                  (Len(hist') > Len(hist) /\ hist'[Len(hist')].a = "job" /\ hist'[Len(hist')].delete)]_vars
 \* every task has a file of its own after its job completed (by construction
 \* of `files`; on the implementation side the file names are compared)
@@ -144,7 +178,7 @@ Monotone == [][\A t \in Tasks : files'[t] < files[t] =>
 \* leaves 2+2+3 = 7).  Outside C14's statement; reported as a note.
 ExtensionKeepsTotal == AllComplete => \A i \in 0..(cfg.I - 1) : Total(i) = T
 
-View == <<cfg, T, files, extended>>
+View == <<cfg, T, files, grown, top, extended>>
 AtMostOneExtend == Cardinality({ k \in DOMAIN hist : hist[k].a = "extend" }) <= 1
 Finished == steps = MaxSteps
 Emit == ~Finished \/ PrintT(<<"BEHAVIOUR", ToJson([cfg |-> cfg, steps |-> hist])>>)
